@@ -18,9 +18,11 @@
  * scenario is executed a second time); mode / uniqueness of temp files.
  */
 #include "c0x_conf.h"
+#include <time.h>
 
 enum { K_BYTES, K_MUT, K_REG, K_FIND, K_LIFE, K_TEMP };
-static const int KIND_TABLE[16] = { K_BYTES, K_MUT, K_MUT, K_LIFE, K_BYTES, K_MUT, K_REG, K_FIND, K_MUT, K_BYTES, K_LIFE, K_MUT, K_TEMP, K_REG, K_MUT, K_BYTES };
+static const int KIND_TABLE[32] = { K_BYTES, K_MUT, K_MUT, K_LIFE, K_BYTES, K_MUT, K_REG, K_FIND, K_MUT, K_BYTES, K_LIFE, K_MUT, K_TEMP, K_REG, K_MUT, K_BYTES,
+                                    K_MUT, K_BYTES, K_MUT, K_LIFE, K_MUT, K_BYTES, K_REG, K_MUT, K_FIND, K_MUT, K_LIFE, K_BYTES, K_MUT, K_MUT, K_BYTES, K_MUT };
 static const char *NAMES[] = { "alpha", "beta", "gamma", "delta", "eps", "zeta", "eta", "theta", "iota", "kappa", "lambda", "mu" };
 
 static int subsys_live, tmp_dirty;
@@ -143,6 +145,7 @@ static void mutate_tree(void)
         cx_file *f = &cx_files[vh_below((uint64_t) cx_nfiles)];
         int fi = (int) (f - cx_files);
         int op = (int) vh_below(20);
+        if (vh_coin(2) && cx_nfiles < 40) op = 20;
         vh_op("mutation %d on %s", op, f->name);
         vh_cov(vh_mix(0xC11, (uint64_t) op * 4 + (uint64_t) (fi == 0)));
         switch (op) {
@@ -180,7 +183,7 @@ static void mutate_tree(void)
             if (nl && how == 0) { size_t k = (size_t) (nl - f->data.b) + 1; memmove(f->data.b, f->data.b + k, f->data.n - k + 1); f->data.n -= k; }
             else if (how == 1 && f->data.n > 3) f->data.b[1] = 'L';
             else if (how == 2 && nl) { *nl = ' '; }
-            else if (how == 3 && nl) { size_t at = (size_t) (nl - f->data.b); buf_insert(&f->data, at - 1, "9.9.9-beta2", 11); }
+            else if (how == 3 && nl) { size_t at = (size_t) (nl - f->data.b); buf_insert(&f->data, at - 1, ".99.2", 5); }
             else if (nl) { size_t at = (size_t) (nl - f->data.b) - 1; memmove(f->data.b + at, f->data.b + at + 1, f->data.n - at); f->data.n--; }      /* drop the '>' */
             vh_count("magic_damaged", 1);
             break;
@@ -188,11 +191,12 @@ static void mutate_tree(void)
         case 9: { static const char *P[] = { "%preproc cat", "%preproc m4 -P", "% preproc x y z", "%preproc  '" }; insert_line(f, P[vh_below(4)]); vh_count("preproc_lines", 1); break; }
         case 10: { static const char *P[] = { "title `hostname`", "x %exec(uname -a) y", "`", "a `b", "%exec()", "%exec(", "'`x`'", "%EXEC(id)" }; insert_line(f, P[vh_below(8)]); vh_count("exec_lines", 1); break; }
         case 11: {                                                                                                  /* deep call nesting */
-            static const int D[] = { 2, 10, 50, 120, 200, 300 };
-            int d = D[vh_below(6)];
+            static const int D[] = { 2, 10, 50, 120, 200, 300, 450, 1000, 3000 };
+            int d = D[vh_below(9)];
             cx_buf l = { 0 };
             cx_buf_adds(&l, "v ");
-            for (int i = 0; i < d; i++) cx_buf_adds(&l, vh_coin(50) ? "%get(" : "%put(k ");
+            for (int i = 0; i < d; i++) cx_buf_adds(&l, d > 1000 || vh_coin(50) ? "%get(" : "%put(k ");
+            if (d >= 450) vh_count("nesting_450_plus_lines", 1);
             cx_buf_adds(&l, "k1");
             int close = vh_coin(80) ? d : (int) vh_below((uint64_t) d + 1);
             for (int i = 0; i < close; i++) cx_buf_addc(&l, ')');
@@ -208,22 +212,48 @@ static void mutate_tree(void)
         case 16: { cx_buf l = { 0 }; gen_random_bytes(&l, (int) vh_range(1, 200), 1); for (size_t i = 0; i < l.n; i++) if (l.b[i] == '\n') l.b[i] = ' '; insert_line(f, l.b); cx_buf_free(&l); break; }
         case 17: insert_line(f, "\r"); insert_line(f, " \v\f\r "); break;
         case 18: { cx_buf l = { 0 }; gen_random_bytes(&l, (int) vh_range(1, 400), 0); buf_insert(&f->data, line_boundary(&f->data, 1), l.b, l.n); cx_buf_free(&l); break; }
+        case 20: {                                                                                                  /* include chain deeper than the 8-bit file index */
+            int n = (int) vh_range(250, 262);
+            char l[80], nm[48];
+            for (int i = 0; i < n; i++) {
+                snprintf(nm, sizeof nm, "deep%d.cfg", i);
+                cx_file *d = cx_file_new(nm);
+                if (!d) break;
+                cx_buf_adds(&d->data, magic);
+                if (vh_coin(30)) cx_buf_adds(&d->data, "going down\n");
+                if (i + 1 < n) { snprintf(l, sizeof l, "%%include deep%d.cfg\n", i + 1); cx_buf_adds(&d->data, l); }
+                if (vh_coin(30)) cx_buf_adds(&d->data, "coming up\n");
+            }
+            insert_line(f, "%include deep0.cfg");
+            vh_count("include_chains_over_255", 1);
+            break;
+        }
         default: { char l[300]; memset(l, 'A', 299); l[299] = 0; memcpy(l, "begin ", 6); insert_line(f, l); break; }  /* very long context name */
         }
     }
 }
 
-/* spiftool_version_compare() (strings.c, C17) overflows its 128-byte scratch buffers on long runs; the opener feeds it the
- * text after "<libast-" of a file's first line.  That defect is not this property's subject and not this harness' to
- * repair, so no generated file has a magic-prefixed first line longer than 100 bytes. */
+/* spiftool_version_compare() (strings.c, C17's subject) overflows its 128-byte scratch buffers on long runs and compares
+ * never-written buffers when the two versions start with characters of different classes; the opener feeds it the text
+ * between "<libast-" and '>' of a file's first line.  Those defects are neither this property's subject nor this
+ * harness' to repair, so every generated file whose first line carries the magic prefix gets a version made of digits
+ * and dots (or none), at most 100 bytes long. */
 static void keep_magic_lines_short(void)
 {
     for (int i = 0; i < cx_nfiles; i++) {
         cx_buf *b = &cx_files[i].data;
         if (b->n < 8 || strncasecmp(b->b, "<libast-", 8)) continue;
-        const char *nl = memchr(b->b, '\n', b->n);
-        size_t l = nl ? (size_t) (nl - b->b) : b->n;
-        if (l > 100) buf_insert(b, 100, "\n", 1);
+        size_t e = 8;
+        int ok = 1;
+        while (e < b->n && b->b[e] != '>' && b->b[e] != '\n') { if (!(isdigit((unsigned char) b->b[e]) || b->b[e] == '.')) ok = 0; e++; }
+        if (e > 8 && !isdigit((unsigned char) b->b[8])) ok = 0;
+        if (e > 100) ok = 0;
+        if (!ok) {
+            /* replace the damaged version text by a well-formed one, keep everything from the terminator on */
+            memmove(b->b + 8, b->b + e, b->n - e + 1); b->n -= e - 8;
+            buf_insert(b, 8, "0.8.1", 5);
+            vh_count("magic_version_normalised", 1);
+        }
     }
 }
 
@@ -516,7 +546,8 @@ int main(int argc, char **argv)
     }
 
     while (vh_next_case()) {
-        int kind = KIND_TABLE[(vh_case_idx + vh_case_idx / 16) % 16];
+        int kind = KIND_TABLE[(vh_case_idx + vh_case_idx / 16) % 32];
+        struct timespec t0; clock_gettime(CLOCK_MONOTONIC, &t0);       /* reported only (cost per class), never used for a verdict */
         if (VH_CASE_TRY()) {
             /* per-case scratch: remove everything but the tmp directory */
             {
@@ -535,6 +566,7 @@ int main(int argc, char **argv)
                 cx_file *f = cx_file_new("main.cfg");
                 int shape = (int) vh_below(10);
                 int n = vh_coin(85) ? (int) vh_range(0, 600) : (int) vh_range(600, 60000);
+                if (n > 3000 && !vh_coin(20)) n = 3000 + n / 20;
                 if (shape < 2) gen_random_bytes(&f->data, n, 0);                                   /* no magic at all */
                 else {
                     static const char *MG[] = { NULL, NULL, NULL, NULL, "<libast-9.9>\n", "<libast-0.1>\n", "<LIBAST-0.8.1>\n", "<libast->\n", "<libast-0.8.1\n", "<libast-0.8.1>" };
@@ -543,6 +575,8 @@ int main(int argc, char **argv)
                 }
                 if (vh_coin(30)) { cx_file *g = cx_file_new("inc1.cfg"); cx_buf_adds(&g->data, magic); gen_random_bytes(&g->data, (int) vh_range(0, 300), 1); }
                 keep_magic_lines_short();
+                /* every backquote costs a temp file: keep their number per file moderate */
+                { int bq = 0; for (size_t k = 0; k < f->data.n; k++) if (f->data.b[k] == '`' && ++bq > 40) f->data.b[k] = 'q'; }
                 cx_files_write_all();
                 bytes_fds_before = cx_fd_count(); bytes_may_spawn = files_may_spawn();
                 cx_fgets_budget = (files_total_lines() + 10) * 64 + 1000;
@@ -621,6 +655,11 @@ int main(int argc, char **argv)
             cx_model_begin_expansion(&xmodel); cx_model_reset_store(&xmodel);
             tmp_dirty = 1;
             umask(022);
+        }
+        {
+            static const char *KN[] = { "ms_bytes", "ms_mut", "ms_reg", "ms_find", "ms_life", "ms_temp" };
+            struct timespec t1; clock_gettime(CLOCK_MONOTONIC, &t1);
+            vh_count(KN[kind], (long) ((t1.tv_sec - t0.tv_sec) * 1000 + (t1.tv_nsec - t0.tv_nsec) / 1000000));
         }
         vh_case_done();
     }
